@@ -11,7 +11,7 @@ META = {
     'required_obs': {
         'quick': ['segment-padded', 'segment-pad-gt1', 'segcount-1', 'segcount-2', 'segcount-3', 'nonlast-shortened', 'segment-body-12',
                   'vr-at-maximum', 'eflr-continuation', 'tap-compared', 'e2e-file', 'label-as-object', 'label-reassigned-rewrite',
-                  'target-path-was-occupied:junk-longer', 'target-path-was-occupied:earlier-dlis-larger-records'],
+                  'target-path-was-occupied:junk-longer', 'target-path-was-occupied:earlier-dlis-larger-records', 'file-larger-than-16MiB-in-one-buffer'],
     },
     'exhaustive_windows': {
         'quick': ['record lengths 20,22,30,32,34,36,40,64,126,128,8192,16384 x body lengths k*cap+d, k in 0..4, d in -14..14 (>= 4)'],
